@@ -270,6 +270,8 @@ def _steps():
             lambda o: o.set_title("t"),
             lambda o: o.empty(),
             lambda o: o.selected_tracks.append(0),
+            lambda o: o.reset(),
+            lambda o: o.set_author("a", "e"),
         ],
         "Track": [
             lambda o: o.add_notes("C", 4),
@@ -311,6 +313,10 @@ def _steps():
             lambda o: o.set_velocity(90),
             lambda o: o.set_channel(5),
             lambda o: o.from_int(50),
+            lambda o: o.empty(),
+            lambda o: o.from_hertz(880),
+            lambda o: o.from_shorthand("c''"),
+            lambda o: o.remove_redundant_accidentals(),
         ],
         "OutMidiFile": [
             lambda o: o.tracks.append(C["MidiTrack"]()),
@@ -613,11 +619,34 @@ FN_NAMES = sorted(BY_FN)
 FOCUS = ["containers.Note", "containers.Note", "scales.Diatonic", "scales.Dorian", "scales.Major", "containers.NoteContainer", "keys.get_notes", "chords.triads", "chords.sevenths", "progressions.to_chords", "progressions.substitute", "intervals.invert", "chords.tonic", "chords.I", "chords.triad", "chords.seventh", "keys.get_key_signature_accidentals", "chords.from_shorthand", "scales.Major", "chords.determine"]
 
 
+def _groups():
+    """entries of one function that share the leading note/key of their first
+    string argument: 'related but different arguments' (a memo with a wrong key
+    shows only when such a pair is asked in the right order)"""
+    import re
+
+    g = collections.defaultdict(list)
+    for i, e in enumerate(CATALOG):
+        lead = ""
+        for a in e["args"]:
+            if isinstance(a, str):
+                m = re.match(r"[A-Ga-g][#b]*", a)
+                lead = m.group(0) if m else a[:1]
+                break
+        g[(e["mod"] + "." + e["fn"], lead)].append(i)
+    groups = [v for v in g.values() if len(v) >= 2]
+    weights = [len(v) ** 2 for v in groups]
+    return groups, weights
+
+
+GROUPS, GROUP_WEIGHTS = _groups()
+
+
 def generate(rng, prop, tier):
     nclients = rng.choice([2, 2, 3, 4])
     cfg = {
         "clients": nclients,
-        "mix": rng.choice(["query", "query", "scribble", "scribble", "instances", "lookup", "copy", "all", "all"]),
+        "mix": rng.choice(["query", "query", "scribble", "scribble", "instances", "lookup", "copy", "all", "all", "burst", "burst", "burst"]),
         "focus_p": rng.choice([0.0, 0.3, 0.7]),
     }
     ops = []
@@ -632,6 +661,18 @@ def generate(rng, prop, tier):
         return {"op": "query", "c": c, "e": rng.choice(BY_FN[fn])}
 
     last_q = {}
+    if mix == "burst":
+        # several different questions to one function about one tonic/root, from any client, in a seeded order,
+        # optionally with a mutation of a returned value in between
+        for _ in range(rng.choice([1, 1, 2])):
+            grp = rng.choices(GROUPS, GROUP_WEIGHTS)[0]
+            picks = [rng.choice(grp) for _ in range(min(len(grp) * 2, rng.choice([4, 6, 8, 10])))]
+            for e in picks:
+                c = rng.randrange(nclients)
+                ops.append({"op": "query", "c": c, "e": e})
+                if rng.random() < 0.1:
+                    ops.append({"op": "scribble", "c": c, "r": rng.randrange(8), "how": rng.choice(SCRIBBLES)})
+        return {"prop": prop, "cfg": cfg, "ops": ops}
     for _ in range(n):
         c = rng.randrange(nclients)
         r = rng.random()
